@@ -57,6 +57,8 @@ structure ScanCase where
   mutated : Option (List String) := none
   /-- the cloud groups as the cloud itself holds them when the scan starts -/
   cloud : Option (List Asg) := none
+  /-- groups whose pod or node listing failed in this scan (the scan of such a group ends before it starts) -/
+  listfail : Option (List String) := none
 deriving FromJson, ToJson, Repr, Inhabited
 
 structure ObsInit where
